@@ -228,3 +228,26 @@ pub fn indep_len(data: &[u8]) -> u64 {
     let end = if version >= 3 { data.len() - 4 } else { data.len() };
     read_le(data, end - 16, 8)
 }
+
+/// For a root with an index table (version >= 2, more than 32 transitions):
+/// index[b] is the position of input b among the inputs (ascending order), or
+/// "absent" (>= count) iff no transition has input b.
+pub fn indep_root_index_ok(data: &[u8], b: u8) -> bool {
+    let version = read_le(data, 0, 8);
+    let end = if version >= 3 { data.len() - 4 } else { data.len() };
+    let root = read_le(data, end - 8, 8) as usize;
+    let h = decode_head(data, root, version);
+    if !(h.form == Form::AnyTrans && version >= 2 && h.ntrans > 32) {
+        return true;
+    }
+    let mut want: Option<usize> = None;
+    let mut j = 0;
+    while j < h.ntrans {
+        let (inp, _, _) = decode_trans(data, &h, j);
+        if inp == b {
+            want = Some(j);
+        }
+        j += 1;
+    }
+    decode_index(data, &h, version, b) == want
+}
